@@ -49,6 +49,13 @@ pub fn check<D: OutNeighbors + Vertices + Clone>(d: &D, m: &Model, o: &mut CaseO
     // asking again (or asking a clone) must give the same partition
     let again: Vec<BTreeSet<usize>> = t.components().clone();
     o.check(again == comps, "components-differ-on-second-call", || crate::ctx::clip(&format!("first {comps:?} second {again:?}")));
+    {
+        let mut x = Tarjan::new(d);
+        let _ = x.components().len();
+        x.clone_from(&Tarjan::new(d));
+        let via: Vec<BTreeSet<usize>> = x.components().clone();
+        o.check(via == comps, "components-differ-after-clone_from", || crate::ctx::clip(&format!("first {comps:?} via clone_from {via:?}")));
+    }
     let mut c = t.clone();
     let cloned: Vec<BTreeSet<usize>> = c.components().clone();
     o.check(cloned == comps, "components-differ-on-a-clone", || crate::ctx::clip(&format!("first {comps:?} clone {cloned:?}")));
